@@ -127,9 +127,20 @@ def root_causes(case: Any, orders: List[List[int]], dumps: List[Any]) -> Optiona
     return out
 
 
-XX
+def gen_random(rng: random.Random) -> Any:
+    """random project in which every object has at most one re-exporter (the quantifier of C06/C07)"""
+    while True:
+        r = rng.random()
+        c = P.random_project(rng, allow_cycles=r < 0.45, allow_dups=r < 0.8)
+        if not multi_reexported(c):
+            return c
+
+
+class Check(PropertyCheck):
+    id = 'C06'
     props_module = 'Props.C06'
     models = {'project': 'XProject.v'}
+    want_doclinks = False
     rule = ('projects = corpus + the re-export matrix {package, sibling} x {plain, renamed, star} x {consumer from D, from R, both, '
             'module alias} + every project of N flat modules with <= 1 import each (from / star / import-module, before or after '
             'the class, used as base or not) + seeded random projects (packages, every import form, acyclic inheritance, __all__ '
@@ -179,14 +190,15 @@ XX
         self.exhaustive = True
         nrand = 3000 if thorough else 140
         for k in range(nrand):
-XX
+            c = gen_random(self.rng)
+            c['label'] = 'random'
             out.append(c)
         self.stats['random_projects'] = nrand
         return out
 
     def run_cases(self, cases: List[Any], limit: int = 24) -> List[Tuple[Any, List[List[int]], List[Any], bool]]:
         orders = [P.all_reachable_orders(c, limit, self.rng) for c in cases]
-        impl = lib.run_impl_worker(WORKER, [P.impl_job(c, o[0]) for c, o in zip(cases, orders)], jobs=16)
+        impl = lib.run_impl_worker(WORKER, [P.impl_job(c, o[0], self.want_doclinks) for c, o in zip(cases, orders)], jobs=16)
         return [(c, o[0], im, o[1]) for c, o, im in zip(cases, orders, impl)]
 
     # ------------------------------------------------------------------ check
@@ -235,14 +247,10 @@ XX
                     out.append(Violation('correspondence', 'Model.Project and the real System disagree under order %s: %s'
                                          % (o, '; '.join(df[:3])[:600]), case={'case': c, 'orders': [o]},
                                          expected=cm, observed=ci))
-            v = oracle(c, orders, im)
-            if v is not None:
-                self.count('oracle_violations_' + ('cyclic' if v['cyclic'] else 'acyclic'))
+            for vio in self.project_oracle(c, orders, im):
                 if norc < 400:
                     norc += 1
-                    two = [im[orders.index(v['orders'][0])], im[orders.index(v['orders'][1])]]
-                    out.append(Violation('oracle', v['what'], case={'case': c, 'orders': v['orders']},
-                                         observed={'diffs': v['diffs'], 'dumps': [x.get('objects', x) for x in two]}))
+                    out.append(vio)
         self.stats['distinct_nontrivial'] = len(nt)
         for c, orders, im, complete in runs[:1] + runs[45:47] + runs[-2:]:
             self.sample({'label': c.get('label'), 'modules': [[m['name'], P.render(m)] for m in c['mods']],
@@ -278,6 +286,15 @@ XX
             self.stats['real_package_full_dump_equal'] = self.stats.get('real_package_full_dump_equal', 0) + (1 if a == b else 0)
         return out
 
+    def project_oracle(self, c: Any, orders: List[List[int]], im: List[Any]) -> List[Violation]:
+        v = oracle(c, orders, im)
+        if v is None:
+            return []
+        self.count('oracle_violations_' + ('cyclic' if v['cyclic'] else 'acyclic'))
+        two = [im[orders.index(v['orders'][0])], im[orders.index(v['orders'][1])]]
+        return [Violation('oracle', v['what'], case={'case': c, 'orders': v['orders']},
+                          observed={'diffs': v['diffs'], 'dumps': [x.get('objects', x) for x in two]})]
+
     # ------------------------------------------------------------------ search / classify / replay
     def search(self, broken: List[Violation]) -> List[Violation]:
         """A proof or the correspondence broke: run the oracle (real tool, two schedules) on a larger stream."""
@@ -290,15 +307,11 @@ XX
             cases.append(gen_random(rng))
         known, _ = lib.load_known_findings(self.id)
         for c, orders, im, complete in self.run_cases(cases):
-            v = oracle(c, orders, im)
-            if v is not None:
-                two = [im[orders.index(v['orders'][0])], im[orders.index(v['orders'][1])]]
-                vio = Violation('oracle', v['what'], case={'case': c, 'orders': v['orders']},
-                                observed={'diffs': v['diffs'], 'dumps': [x.get('objects', x) for x in two]})
+            for vio in self.project_oracle(c, orders, im):
                 if self.classify_known(vio, known) is None:
                     out.append(vio)
-                    if len(out) >= 5:
-                        break
+            if len(out) >= 5:
+                break
         return out
 
     def classify_known(self, v: Violation, known: List[dict]) -> Optional[dict]:
